@@ -485,6 +485,49 @@ func registerBig(e *Engine) {
 		return simp(Or(Lt(x.t, IntConst64(0)), Ge(x.t, IntConst(pow2(256)))))
 	})
 
+	// LegacyDec → float64 / text
+	decRaw := func(fr *frame, v value) bigVal {
+		ptr, _ := v.(structure)[0].(*value)
+		if ptr == nil {
+			rtPanic(fr, "invalid memory address or nil pointer dereference (nil LegacyDec)")
+		}
+		return (*ptr).(bigVal)
+	}
+	decFloat := func(fr *frame, v value) value {
+		raw := decRaw(fr, v)
+		if raw.isConc() {
+			f, _ := new(big.Float).Quo(new(big.Float).SetInt(raw.conc()), new(big.Float).SetInt(new(big.Int).Exp(big.NewInt(10), big.NewInt(18), nil))).Float64()
+			return f
+		}
+		return fr.p.fround(Op("/", SReal, ToReal(raw.t), RealConst("1000000000000000000.0")))
+	}
+	e.reg("(cosmossdk.io/math.LegacyDec).MustFloat64", func(fr *frame, args []value) value { return decFloat(fr, args[0]) })
+	e.reg("(cosmossdk.io/math.LegacyDec).Float64", func(fr *frame, args []value) value {
+		return tuple{decFloat(fr, args[0]), iface{}}
+	})
+	e.reg("(cosmossdk.io/math.LegacyDec).String", func(fr *frame, args []value) value {
+		ptr, _ := args[0].(structure)[0].(*value)
+		if ptr == nil {
+			return "<nil>"
+		}
+		raw := (*ptr).(bigVal)
+		if raw.isConc() {
+			// 18 decimal places, as LegacyDec.String prints
+			v := raw.conc()
+			neg := v.Sign() < 0
+			a := new(big.Int).Abs(v).String()
+			for len(a) < 19 {
+				a = "0" + a
+			}
+			out := a[:len(a)-18] + "." + a[len(a)-18:]
+			if neg {
+				out = "-" + out
+			}
+			return out
+		}
+		return &SymStr{parts: []strPart{{kind: "s", t: App("decstr", SStr, raw.t)}}}
+	})
+
 	// big.Rat (fractions): num/den with den > 0, normalised only when concrete
 	e.reg("(*math/big.Rat).SetString", func(fr *frame, args []value) value {
 		z := args[0].(*value)
